@@ -47,7 +47,12 @@ func (con *Connection) EncryptedWrite(b []byte) (int, error) {
 	verifWriteEnter(con)
 	var buffer bytes.Buffer
 	buffer.Write(b)
-	encrypted, err := con.getEncrypter().Encrypt(&buffer)
+	encrypter := con.getEncrypter()
+	if encrypter == nil {
+		// The session was removed because the connection was closed in the meantime
+		return 0, io.ErrClosedPipe
+	}
+	encrypted, err := encrypter.Encrypt(&buffer)
 
 	if err != nil {
 		log.Info.Panic("Encryption failed:", err)
